@@ -497,6 +497,11 @@ def gen_plan(seed: int, run: int, tier: str) -> dict:
             plan["again"] = {"n_trials": rng.randint(1, 3), "via": rng.choice(["same", "copy_in_callback", "copy_in_callback", "copy_after"])}
         if n_jobs > 1:
             cfg["p_line"] = rng.choice([0.003, 0.01, 0.03])
+        if pruner["kind"] == "hyperband" and rng.random() < 0.5:
+            # the storage look-ups that Hyperband's bracket view makes while the trial is
+            # being told (study id by name, directions) fail once: the error propagates, but
+            # the trial must have been finished with its own outcome first
+            plan["tell_faults"] = sorted(set(rng.randrange(n_trials) for _ in range(rng.randint(1, 2))))
         if kind == "cached" and rng.random() < 0.5:
             # heartbeats on; one heartbeat write fails (connection lost): that kills the
             # background thread at most - the trial itself must still end well-formed
@@ -691,6 +696,13 @@ def make_pruner(p: dict) -> Any:
     return optuna.pruners.NopPruner()
 
 
+def sim_cur_name() -> Any:
+    from simkit import seams
+
+    s_ = seams.SIM
+    return s_.cur.name if s_ is not None and s_.in_task() else None
+
+
 def make_wrapper(inner: Any, faults: dict[int, dict], R: dict, n_pre_done: int) -> Any:
     """The real sampler behind a wrapper that injects after_trial exceptions and records
     every exception the real sampler raises by itself (so that the oracle can tell
@@ -718,6 +730,8 @@ def make_wrapper(inner: Any, faults: dict[int, dict], R: dict, n_pre_done: int) 
 
         def after_trial(self, study: Any, trial: Any, state: Any, values: Any) -> None:
             num = trial.number
+            if "post_obj" in R:
+                R["post_obj"].pop(sim_cur_name(), None)
             f = faults.get(num - n_pre_done)
             R["after_calls"].append((num, state.name))
             if f is not None and f.get("when") == "before":
@@ -944,12 +958,44 @@ def _run_optimize(plan: dict, sim: sched.Sim, ch: sched.Chooser, dep: deploy.Dep
         inner_st.record_heartbeat = record_heartbeat  # type: ignore[method-assign]
         dep._closers.append(lambda: inner_st.__dict__.pop("record_heartbeat", None))
 
+    R["post_obj"] = {}
+    tell_faults = set(int(x) for x in plan.get("tell_faults", []) if isinstance(x, int))
+    if tell_faults:
+        from optuna.exceptions import StorageInternalError as _SIE
+
+        def _lookup_fault(orig: Any) -> Any:
+            def wrapped(*a: Any, **k: Any) -> Any:
+                me = sim.cur.name if sim.in_task() else None
+                num = R["post_obj"].get(me)
+                if num is not None and (num - R["n_done"]) in tell_faults:
+                    tell_faults.discard(num - R["n_done"])
+                    R["post_obj"].pop(me, None)
+                    e = _SIE("injected: connection lost during a study look-up while trial %d was being told" % num)
+                    R["sampler_exc"].setdefault(num, []).append(e)
+                    R["injected"] += 1
+                    sim.count("fault:lookup_fails_during_tell")
+                    raise e
+                return orig(*a, **k)
+
+            return wrapped
+
+        st.get_study_id_from_name = _lookup_fault(st.get_study_id_from_name)  # type: ignore[method-assign]
+        st.get_study_directions = _lookup_fault(st.get_study_directions)  # type: ignore[method-assign]
+
     def objective(trial: Any) -> Any:
         num = trial.number
         idx = num - R["n_done"]
         rec: dict[str, Any] = {"num": num, "reports": {}, "out": None, "vspec": None}
         R["calls"].append(rec)
         prog = programs[idx] if 0 <= idx < len(programs) else []
+        me_task = sim.cur.name if sim.in_task() else None
+        R["post_obj"].pop(me_task, None)
+        try:
+            return _objective_body(trial, num, rec, prog)
+        finally:
+            R["post_obj"][me_task] = num  # from here on the trial is being told
+
+    def _objective_body(trial: Any, num: int, rec: dict, prog: list) -> Any:
         try:
             for a in prog:
                 if not isinstance(a, dict):
